@@ -28,6 +28,7 @@ Lemma classify_kind n :
   | OOptChain => kind_of n = Some KOptChain
   | OUnary => kind_of n = Some KUnary
   | OArrow => kind_of n = Some KArrow
+  | OLeaf => True
   | OOther => True
   end.
 Proof. destruct n as [[k lo hi| | | | | |] cs]; simpl; auto. destruct k; simpl; auto. Qed.
@@ -290,6 +291,7 @@ Section Kinds.
       destruct n as [[kk lo hi| | | | | |] cs]; try reflexivity. destruct kk; try reflexivity.
       destruct cs as [|cx [|params [|body [|asy [|gen [|tp [|rt [|? ?]]]]]]]]; try reflexivity.
       destruct (is_kind KBlock body); reflexivity.
+    - inversion H; reflexivity.
     - eapply D; exact H.
   Qed.
 End Kinds.
